@@ -156,7 +156,7 @@ Fixpoint ob (st : list Z) (e : expr) {struct e} : Z * bool :=
   | EVarIn _ a b => (1%Z, snd (ob st a) || snd (ob st b))
   | EUn o a =>
       let (x, f) := ob st a in
-      match o with UBnot => capf (x + 1)%Z f | UNeg => (x, f) | UNot => (1%Z, f) end
+      match o with UBnot => capf (x + 1)%Z f | UNeg => (x, f) | UNot | UMatches _ _ _ => (1%Z, f) end
   | EBin o l r =>
       let (a, fa) := ob st l in
       let (c, fc) := ob st r in
